@@ -22,7 +22,8 @@ META = {
              "distinct by the full input tuple."
              ' Also: descriptions that carry their own encoding / block si'
              'ze, decimal voxel sizes (rounding ties of the key formatting'
-             '), axis ratios up to 2^40.'),
+             '), axis ratios up to 2^40.'
+             " Round 16: descriptions that already carry several scales (the info of an existing dataset)."),
     "trusted_base": ["validity predicate formalising the docstring of "
                      "fill_scales_for_dyadic_pyramid", "vlib/refs/"
                      "pyramid_model.py (cross-validated in C06)"],
@@ -59,6 +60,18 @@ def build_fullres(case):
     if case.get("desc_block"):
         info["scales"][0]["compressed_segmentation_block_size"] = list(
             case["desc_block"])
+    # the description may be the info of an existing dataset (documented
+    # use: `generate-scales-info --encoding=jpeg 8bit/info jpeg/`): only its
+    # first scale counts, the others (made with other parameters) are dropped
+    size = list(case["size"])
+    res = list(case["resolution"])
+    for k in range(case.get("extra_scales", 0)):
+        size = [max(1, -(-n // 2)) for n in size]
+        res = [2 * r for r in res]
+        info["scales"].append({
+            "key": "old%d" % (k + 1), "size": list(size),
+            "resolution": list(res), "voxel_offset": [0, 0, 0],
+            "chunk_sizes": [[7, 7, 7]], "encoding": "raw"})
     return info
 
 
@@ -356,6 +369,7 @@ def cases(draw):
             "desc_block": draw(st.sampled_from(
                 [None, None, [8, 8, 8], [4, 4, 4], [16, 8, 2]]))
             if enc == "compressed_segmentation" else None,
+            "extra_scales": draw(st.sampled_from([0, 0, 0, 1, 3, 9, 14])),
             "cli": draw(st.integers(0, 9)) == 0}
 
 
@@ -365,7 +379,9 @@ def classes(case, info):
     out = ["core" if core_domain(case) else "extended",
            "aniso" if aniso else "iso",
            "distinct_res%d" % len(set(r)),
-           "cli" if case["cli"] else "api"]
+           "cli" if case["cli"] else "api",
+           "description_with_%s_scales" % (
+               "several" if case.get("extra_scales") else "one")]
     if info == "rejected":
         out.append("rejected")
     else:
